@@ -97,6 +97,16 @@ PROPS = {
         "level_note": "trusted: Cache.tla's abstraction of from_ym (bound by the hit/miss/fill/refuse hook events), the guarded hooks, the OS scheduler for real interleavings; answers are compared with the uncached constructor / a fresh process of the same build, so a defect that is history-independent is out of scope here (C02/C03 cover it)",
         "technique": "TLA+ memo model: exhaustive interleavings with TLC, TLC-generated histories replayed into the code, hook-event trace validation",
     },
+    "C18": {
+        "title": "almanac lookup tables are total and well-formed for every pillar pair",
+        "mc": {"quick": [{"module": "MC_AlmanacTables", "cfg": "MC_AlmanacTables.cfg", "workers": 2}]},
+        "rule": "all 720 (month branch, day pillar) pairs for spirits and day activities, all 720 (day pillar, hour branch) pairs for hour activities, each queried twice in opposite orders and decoded independently from the raw table rows (guarded hook); all 151 spirits; the same lists through SixtyCycleDay/LunarDay/SixtyCycleHour/LunarHour of seeded days; kitchen-god numbers of sampled (quick) / all (thorough) lunar years -1..9999",
+        "exhaustive": {"quick": False, "thorough": True},
+        "assumptions": ["the almanac CONTENT (which spirit on which day) is data and is not judged; row layout (Yin month first for spirits, Zi first for activities) is taken from the lookup code"],
+        "level_text": "TLC checks the table-lookup model (luck split, kitchen-god counts in range for every New Year's day pillar) and validates one Lookup event per pillar pair of the real code: the result equals the record decoded independently from the raw table, every index exists in its name list, every day has a spirit, recommended and avoided activities are disjoint, a repeated query returns the same lists; both tiers enumerate all 1,440 pairs and 151 spirits, thorough also all 10,001 years",
+        "level_note": "trusted: AlmanacTables.tla, the guarded read-only hook exposing the raw tables, TLC, harness decoding (hex pairs)",
+        "technique": "TLA+ lookup model checked with TLC + exhaustive trace validation of table lookups",
+    },
     "C19": {
         "title": "stem and branch attributes match the classical correspondence rules",
         "mc": {"quick": [{"module": "MC_Cycles", "cfg": "MC_Cycles.cfg", "workers": 2}]},
